@@ -583,19 +583,23 @@ func (s *Service) truncateGlobally(ctx context.Context, sortedInfos []*TruncateI
 			if deleted {
 				s.logger.Info("truncateGlobally(): the journal ", ti.Src, " has been just deleted")
 				jrnls++
-				ts -= ti.AfterSize
-				tr += ti.AfterSize
-				nck := len(cks)
-				if tp.DryRun {
-					// a dry phase I removed nothing: cks still holds the chunks it already counted
-					nck -= ti.ChunksDeleted
-				}
-				cr += nck
-				ti.AfterSize = 0
-				ti.AfterRecs = 0
-				ti.ChunksDeleted += nck
-				ti.Deleted = true
+			} else {
+				// the partition is in use and could not be dropped, but its chunks are gone: account for them, so
+				// the pass reports the partition and does not go on to take another one instead
+				s.logger.Info("truncateGlobally(): the journal ", ti.Src, " has been emptied, it is in use and could not be deleted")
 			}
+			ts -= ti.AfterSize
+			tr += ti.AfterSize
+			nck := len(cks)
+			if tp.DryRun {
+				// a dry phase I removed nothing: cks still holds the chunks it already counted
+				nck -= ti.ChunksDeleted
+			}
+			cr += nck
+			ti.AfterSize = 0
+			ti.AfterRecs = 0
+			ti.ChunksDeleted += nck
+			ti.Deleted = deleted
 		}
 	}
 
